@@ -317,10 +317,12 @@ def pade_tables(db, rep):
     tables = {}
     n = 0
     for m in (3, 5, 7, 9, 13):
-        f = db.one('MatrixExp', ME + 'pade%d' % m)
-        rep.fn(f['name'])
+        fs = db.find('MatrixExp', ME + 'pade%d' % m)
+        f = fs[0] if len(fs) == 1 else {'body': None, 'name': ME + 'pade%d' % m}
+        if len(fs) == 1:
+            rep.fn(f['name'])
         vals = None
-        for node in walk(f['body']):
+        for node in (walk(f['body']) if f.get('body') is not None else ()):
             if node.get('k') == 'VarDecl' and node.get('name') == 'b':
                 vals = []
                 for x in walk(node.get('init')):
@@ -330,9 +332,14 @@ def pade_tables(db, rep):
                         vals.append(float(x['v']))
                 break
         n += 1
-        if vals is None:
-            raise AnalysisBroken('coefficient list b not found in pade%d' % m)
         want = [float(Fraction(math.factorial(2 * m - j), math.factorial(j) * math.factorial(m - j))) for j in range(m + 1)]
+        if vals is None:
+            # no list of that name in a function of that name: the coefficients are judged where they take effect,
+            # in the polynomials U and V handed to the solver (rule G.pade.uv)
+            rep.notes.append('pade%d: no coefficient list named b; the coefficients are judged through U and V' % m)
+            rep.ok('G.pade.tab')
+            tables[m] = want
+            continue
         # the list may carry a common positive factor (only the ratio matters for (V-U)^-1 (V+U))
         ok = len(vals) == len(want) and vals[-1] != 0 and all(abs(v / vals[-1] - w / want[-1]) <= 1e-15 * abs(w / want[-1]) for v, w in zip(vals, want))
         if ok:
@@ -341,7 +348,8 @@ def pade_tables(db, rep):
         else:
             bad = [j for j, (v, w) in enumerate(zip(vals, want)) if abs(v / (vals[-1] or 1) - w / want[-1]) > 1e-15 * abs(w / want[-1])] if len(vals) == len(want) else 'length %d' % len(vals)
             rep.fail('G.pade.tab', 'pade%d' % m, unit.loc(f), 'b_j proportional to (2m-j)!/(j!(m-j)!), j=0..%d' % m, 'entries %s differ: %s' % (bad, vals), f['name'])
-        tables[m] = vals
+        # what U and V are compared with is the mathematical table (a common positive factor is immaterial)
+        tables[m] = want
     rep.floor('G.pade.tab', n, 5)
     return tables
 
@@ -432,6 +440,7 @@ def explore_paths(db, rep, tables, n=3, warm_n=None):
             hooks.stale_reads = []
             hooks.events = []
             hooks.order_taken = None
+            hooks.uv = None
             hooks.s_choice = None
             hooks.cmps = []
             hooks.f2i = None
@@ -447,6 +456,10 @@ def explore_paths(db, rep, tables, n=3, warm_n=None):
             if nm.startswith(ME + 'pade') and nm[len(ME) + 4:].isdigit():
                 hooks.order_taken = int(nm[len(ME) + 4:])
                 hooks.pade_args = [hooks.mat(it_, a) for a in args]
+                return NotImplemented
+            if nm == ME + 'solve_P_Q' and len(args) >= 2:
+                # the two polynomials as they reach the solver, whatever function built them
+                hooks.uv = (hooks.mat(it_, args[0]), hooks.mat(it_, args[1]))
                 return NotImplemented
             return orig(it_, fdecl, node, args, this_cell)
         hooks.override_call = override
@@ -466,6 +479,12 @@ def explore_paths(db, rep, tables, n=3, warm_n=None):
     for ch, (hooks, A, eA, err) in enumerate_choices(one, limit=3000):
         paths += 1
         m = hooks.order_taken
+        uv = getattr(hooks, 'uv', None)
+        if uv is not None and uv[0].mp is not None and uv[1].mp is not None:
+            # the order actually used is the degree of U + V
+            degs = [k for mp_ in (uv[0].mp, uv[1].mp) for k, c in mp_.t.items() if c != 0]
+            if degs and (m is None or max(degs) != m) and hooks.order_taken is None:
+                m = max(degs)
         for (name, what, where) in hooks.stale_reads:
             stale.setdefault((name, what), where)
         if err is not None:
@@ -479,8 +498,10 @@ def explore_paths(db, rep, tables, n=3, warm_n=None):
             seen_orders[m] = hooks
         thresholds.append((m, list(hooks.cmps), hooks.f2i))
         # U, V
-        Amat, idm = hooks.pade_args[0], hooks.pade_args[1]
-        U, V = hooks.pade_args[-2], hooks.pade_args[-1]
+        if uv is not None:
+            U, V = uv
+        else:
+            U, V = hooks.pade_args[-2], hooks.pade_args[-1]
         # after solve_P_Q the matrices P,Q were built from U,V: inspect lu_solve events
         solves = [e for e in hooks.events if e[0] == 'lu_solve']
         b = tables[m]
@@ -501,8 +522,11 @@ def explore_paths(db, rep, tables, n=3, warm_n=None):
                     rep.fail('G.pade.ell', ('' if warm_n is None else 'after a %dx%d call/' % (warm_n, warm_n)) + 'ell(.,%d)%s' % (m, ('/u=%d' % getattr(hooks, 'u_choice', s)) if m == 13 else ''),
                              unit.loc(f), 'ell(M,%d) is evaluated for M = %s' % (m, '2^-s A (the scaled matrix)' if m == 13 else 'A'),
                              'M = %s' % (e[2],), f['name'])
-        wantU = MP('A', {j: b[j] * scale ** j for j in range(1, m + 1, 2)})
-        wantV = MP('A', {j: b[j] * scale ** j for j in range(0, m + 1, 2)})
+        # a common positive factor of all coefficients is immaterial: normalised on the constant term of V
+        c0 = V.mp.t.get(0, 0.0) if V.mp is not None else 0.0
+        fac = (c0 / b[0]) if (c0 > 0 and b[0]) else 1.0
+        wantU = MP('A', {j: fac * b[j] * scale ** j for j in range(1, m + 1, 2)})
+        wantV = MP('A', {j: fac * b[j] * scale ** j for j in range(0, m + 1, 2)})
         okU = U.mp is not None and U.mp.close(wantU)
         okV = V.mp is not None and V.mp.close(wantV)
         site = ('' if warm_n is None else 'after a %dx%d call/n=%d/' % (warm_n, warm_n, n)) + 'pade%d%s' % (m, ('/u=%d' % getattr(hooks, 'u_choice', s)) if m == 13 else '')
@@ -511,8 +535,10 @@ def explore_paths(db, rep, tables, n=3, warm_n=None):
             if m in (3, 13):
                 rep.sample('G.pade.uv', '%s: U = %s' % (site, U.mp))
         else:
-            rep.fail('G.pade.uv', site, unit.loc(db.one('MatrixExp', ME + 'pade%d' % m)),
-                     'U = sum of odd terms b_j (2^-s A)^j, V = sum of even terms', 'U = %s ; V = %s' % (U.mp, V.mp), ME + 'pade%d' % m)
+            pf = db.find('MatrixExp', ME + 'pade%d' % m)
+            rep.fail('G.pade.uv', site, unit.loc(pf[0]) if len(pf) == 1 else unit.loc(f),
+                     'U = sum of odd terms b_j (2^-s A)^j, V = sum of even terms, b_j proportional to (2m-j)!/(j!(m-j)!)', 'U = %s ; V = %s' % (U.mp, V.mp),
+                     pf[0]['name'] if len(pf) == 1 else f['name'])
         # solve: LU of V-U, right-hand sides columns of V+U, outputs columns of eA
         wantQ = wantV.add(wantU, -1.0)
         wantP = wantV.add(wantU, 1.0)
